@@ -56,6 +56,14 @@ export function loc(int i, int v) -> int { Out s; s.arr[i] = s.arr[i] + v; s.inn
 export function glo(int i, int v) -> int { gs.inner.x = gs.inner.x + v; gs.arr[i] = v; gs.inner.a[0] = gs.inner.a[0] + 1; Out t; t = gs; t.arr[i] = 5; t.inner.a[0] = 9; return gs.arr[i] + gs.inner.a[0] * 10; }
 export function arrs(int i, int v) -> int { In one; one.a[i] = one.a[i] + v; int[2][2] m; m[i][i] = m[i][i] + v; float3[2] vs; vs[i].x = vs[i].x + 1.0; return one.a[0] + one.a[1] * 10 + m[0][0] * 1000 + m[1][1] * 10000 + (vs[i].x > 1.5) * 100000; }
 """,
+    "returned": """float3x3 grid; float3 row; int[3] arr; int[3] snap;
+function rowOf(int i) -> float3 { return grid[i]; }
+function whole() -> int[3] { return arr; }
+export function take(int i) -> float { row = rowOf(i); return row.x; }
+export function poke(int i, int j, float v) -> float { grid[i][j] = v; return row.x + row.y + row.z; }
+export function snapshot() -> int { snap = whole(); return snap[0]; }
+export function bump(int i, int v) -> int { arr[i] = arr[i] + v; return snap[0] + snap[1] * 10 + snap[2] * 100; }
+""",
     "calls": """int depth; int total;
 function rec(int n) -> int { depth = depth + 1; if (n <= 0) return 0; total = total + n; return rec(n - 1) + 1; }
 export function run(int n) -> int { int before = total; int r = rec(n); return r * 100 + (total - before); }
@@ -67,7 +75,7 @@ export function h(int a) -> int { int x; if (a > 0) { x = 7; } return x + g; }
 """,
 }
 BOUNDS = {"i": (0, 2), "j": (0, 1), "n": (0, 3)}
-PROGRAM_BOUNDS = {"array2d": {"i": (0, 1), "j": (0, 1)}, "array": {"i": (0, 2), "top": (0, 2)}, "nested": {"i": (0, 1)}}
+PROGRAM_BOUNDS = {"array2d": {"i": (0, 1), "j": (0, 1)}, "array": {"i": (0, 2), "top": (0, 2)}, "nested": {"i": (0, 1)}, "returned": {"i": (0, 2), "j": (0, 2)}}
 
 
 def alphabet(prog):
